@@ -386,7 +386,7 @@ def run(rep: Report, tier: str) -> None:
     common.tlc_must_pass(res, "UnitScale_MC (K=3)")
     rep.add_tlc(res)
     if not quick:
-        for leg in ("stale_deps", "add_constraint_positional"):
+        for leg in ("stale_deps", "add_constraint_positional", "torch_add_mapped_first"):
             r = common.run_tlc("UnitScale_MC", f"UnitScale_MC_{leg}.cfg", timeout=900, tag="usleg")
             common.tlc_must_fail(r, f"UnitScale Legacy={leg}", "AlgoRefinesRecipe")
             rep.extra.setdefault("l2_refuted_deviations", []).append({"legacy": leg, "violated": r.violated_invariant})
